@@ -40,11 +40,13 @@ def norm(s):
 
 def gen_set(rng):
     texts = ["Hello there", "two  words", "R&D <dept>", "it's \"q\"", "-->", "a & b", "Ünï çødé", "1", "x",
-             "write &lt; for less", "&amp;lt; twice", "&apos; &quot; &nbsp;", "&#60;b&#62;"]
-    langs = rng.sample(["en-US", "fr-FR"], rng.choice([1, 1, 2]))
+             "write &lt; for less", "&amp;lt; twice", "&apos; &quot; &nbsp;", "&#60;b&#62;",
+             "Press <b> to go back, <i> for info", "a <c and c> d", "<v Bob> said", "<00:01.000> later"]
+    # (language codes one of which is a prefix of the other, in both orders)
+    langs = rng.choice([["en-US"], ["fr-FR"], ["en-US", "fr-FR"], ["fr-FR", "en-US"], ["en-US", "en"], ["en", "en-US"]])
     caps = {}
     for l in langs:
-        lst, t = [], rng.choice([0, 999, 40000, 1234567])
+        lst, t = [], rng.choice([0, 999, 40000, 1234567, 3598 * US + 500000, 3600 * US - 40000])
         for j in range(rng.choice([1, 2, 3])):
             dur = rng.choice([40000, 1000000, 2500000, 8040000 - 1234567 if j == 0 else 3000000])
             dur = max(dur, 80000)
